@@ -6,9 +6,11 @@ The two `debug_assert!`s of `pm1_stage2_polyeval` on canonical residues (Model/P
 (`babyLoop_last`), hence the first one never fails either (`baby_assert_holds`).
 -/
 import Ymq.Lemmas.Pm1Baby
+import Ymq.Lemmas.Stage2Pm1
+import Mathlib.Data.List.Sort
 
 namespace Ymq.Pm1Impl
-open Ymq.ExpModn
+open Ymq.ExpModn Ymq.Stage2 Ymq.Gen
 
 theorem expModn_lt {m g e x : Nat} (hm : 0 < m) (hg : g < m) (h : expModn (mulm m) (onem m) g e = some x) : x < m := by
   have hnat := expModn_natural (fun a : Nat => a % m) (mulm m) (mulm m)
@@ -201,7 +203,7 @@ theorem polyVals_isSome {m g d1 d2 : Nat} (hm : 0 < m) (hg : g < m) (h6 : d1 % 6
     have h3 : ¬ d2 / 2 < 28 := by omega
     have h4 : ¬ (fromRoots m vs).length > d2 := by rw [fromRoots_length]; omega
     have hpos : 1 ≤ vs.length := by
-      obtain ⟨vs', idx, e1, e2, e3⟩ := babySteps_spec m g d1
+      obtain ⟨vs', idx, e1, e2, e3, _⟩ := babySteps_spec m g d1
       rw [hvs] at e1
       simp only [Option.some.injEq] at e1
       subst e1
@@ -210,5 +212,71 @@ theorem polyVals_isSome {m g d1 d2 : Nat} (hm : 0 < m) (hg : g < m) (h6 : d1 % 6
     have h5 : ¬ (fromRoots m vs).length < 2 := by rw [fromRoots_length]; omega
     rw [if_neg hgiant, if_neg h2, if_neg h3, if_neg h4, if_neg h5]
     rfl
+
+theorem babySteps_spec_idx (m g : Nat) {d1 : Nat} (h6 : 6 ∣ d1) (hd : 0 < d1) :
+    ∃ vs idx, babySteps m d1 g = some vs ∧ List.Forall₂ (fun v r => v ≡ g ^ r [MOD m]) vs idx ∧
+      (∀ r, r ∈ idx ↔ isPm1Baby d1 r = true) ∧ idx.Pairwise (· < ·) := by
+  obtain ⟨vs, idx, h1, h2, h3, h4⟩ := babySteps_spec m g d1
+  refine ⟨vs, idx, h1, h2, fun r => ?_, h4⟩
+  rw [h3, pm1Baby_iff h6 hd]
+  obtain ⟨k, rfl⟩ := h6
+  constructor
+  · rintro (rfl | ⟨a1, a2, _, _, a5⟩)
+    · exact ⟨by omega, by omega, by simp⟩
+    · exact ⟨by omega, a2, a5⟩
+  · rintro ⟨a1, a2, a3⟩
+    by_cases hr : r = 1
+    · exact Or.inl hr
+    · refine Or.inr ⟨by omega, a2, ?_, ?_, a3⟩
+      · rcases Nat.mod_two_eq_zero_or_one r with h | h
+        · exfalso
+          have : 2 ∣ Nat.gcd r (6 * k) := Nat.dvd_gcd (Nat.dvd_of_mod_eq_zero h) ⟨3 * k, by ring⟩
+          rw [a3] at this; omega
+        · exact h
+      · intro h
+        have : 3 ∣ Nat.gcd r (6 * k) := Nat.dvd_gcd (Nat.dvd_of_mod_eq_zero h) ⟨2 * k, by ring⟩
+        rw [a3] at this; omega
+
+/-- the number of baby steps is `pm1Deg d1` (the degree of the polynomial `from_roots` builds) -/
+theorem babySteps_length {m g d1 : Nat} (h6 : 6 ∣ d1) (hd : 0 < d1) {vs : List Nat} (h : babySteps m d1 g = some vs) :
+    vs.length = pm1Deg d1 := by
+  obtain ⟨vs', idx, e1, e2, e3, e4⟩ := babySteps_spec_idx m g h6 hd
+  rw [h] at e1
+  simp only [Option.some.injEq] at e1
+  subst e1
+  rw [e2.length_eq]
+  unfold pm1Deg
+  congr 1
+  refine List.Pairwise.eq_of_mem_iff e4 (List.Pairwise.sublist List.filter_sublist List.pairwise_lt_range) fun r => ?_
+  rw [e3, List.mem_filter, List.mem_range]
+  constructor
+  · intro hb
+    have := ((pm1Baby_iff h6 hd).mp hb).2.1
+    refine ⟨?_, hb⟩
+    delta Stage2Arms.pm1Baby
+    simp only
+    omega
+  · exact fun h => h.2
+
+/-- the baby steps are the `g^r` over exactly the list `pm1_found` multiplies over -/
+theorem babySteps_exact (m g : Nat) {d1 : Nat} (h6 : 6 ∣ d1) (hd : 0 < d1) :
+    ∃ vs, babySteps m d1 g = some vs ∧
+      List.Forall₂ (fun v r => v ≡ g ^ r [MOD m]) vs ((List.range (d1 + 2)).filter (isPm1Baby d1)) := by
+  obtain ⟨vs, idx, e1, e2, e3, e4⟩ := babySteps_spec_idx m g h6 hd
+  refine ⟨vs, e1, ?_⟩
+  have : idx = (List.range (d1 + 2)).filter (isPm1Baby d1) := by
+    refine List.Pairwise.eq_of_mem_iff e4 (List.Pairwise.sublist List.filter_sublist List.pairwise_lt_range) fun r => ?_
+    rw [e3, List.mem_filter, List.mem_range]
+    constructor
+    · intro hb
+      have := ((pm1Baby_iff h6 hd).mp hb).2.1
+      exact ⟨by omega, hb⟩
+    · exact fun h => h.2
+  rw [← this]
+  exact e2
+
+theorem polyVals_isSome_deg {m g d1 d2 : Nat} (hm : 0 < m) (hg : g < m) (h6 : 6 ∣ d1) (hd0 : 0 < d1) (hd : d1 + 1 < 2 ^ 64)
+    (hpow : d2 = 2 ^ Nat.log2 d2) (h56 : 56 ≤ d2) (hdeg : pm1Deg d1 + 1 ≤ d2) : (polyVals m d1 d2 g).isSome = true :=
+  polyVals_isSome hm hg (Nat.mod_eq_zero_of_dvd h6) hd hpow h56 (fun vs hvs => by rw [babySteps_length h6 hd0 hvs]; exact hdeg)
 
 end Ymq.Pm1Impl
